@@ -1,4 +1,5 @@
 """C01 — all live document text reaches the output exactly once, in order."""
+import common
 import apicheck as A
 import htmlobs as HO
 
@@ -186,7 +187,7 @@ NT = {"textbox", "deleted-mark", "note-footnote", "note-endnote", "del", "ins", 
 
 
 def run(out, tier, seed, model_ok):
-    n = 1500 if tier == "quick" else 20000
+    n = common.deepen(1500 if tier == "quick" else 20000)
     cs = A.gen_cases(seed, n, PROFILE, sm=SM, tag="c01-")
     run_ = A.ApiRun(out, "C01", model_ok, project, observers=[oracle], name="text")
     run_.run(cs, nontrivial=lambda c, r: bool(NT & set(c["features"])))
